@@ -1,4 +1,4 @@
-CONSTANTS MaxNodes = 5 Limits = {0, 1, 100, 101, 1000000} MaxAccepted = 100
+CONSTANTS MaxNodes = 5 Limits = {0, 1, 100, 101, 1000000} MaxAccepted = 100 Depths = {7, 31, 32, 33, 64, 150}
 INIT Init
 NEXT Next
 INVARIANT VerdictRight
